@@ -73,7 +73,8 @@ def system_level(chk, sd):
     r = bc.tlc_with_cfg("MCBreaker", bc.gen_cfg_text([1], "CfgSys", False), "gen.cfg", workers=8, timeout=900)
     ws, stats = vlib.walks(r, max_len=200)
     scripts = []
-    for variant, errplan in (("5xx", "s500"), ("refused", "refuse")):
+    # "ejecting": passive checks on with threshold 1 -- every counted failure also ejects its backend; it still counts
+    for variant, errplan in (("5xx", "s500"), ("refused", "refuse"), ("ejecting", "s500")):
         for j, w in enumerate(ws):
             cf = w["cf"]
             steps, rid = [], 0
@@ -85,8 +86,9 @@ def system_level(chk, sd):
                 elif a["a"] == "tick":
                     steps.append({"a": "tick", "n": 1})
             scripts.append({"id": "sys-%s-%d-%d" % (variant, w["init"], j), "bcf": cf,
-                            "cfg": {"strategy": "round_robin", "backends": [{"name": "b1", "w": 1}],
-                                    "passive": {"on": False, "thr": 1, "win": 1}, "active": {"on": False, "iv": 1},
+                            "cfg": {"strategy": "round_robin",
+                                    "backends": [{"name": "b%d" % k, "w": 1} for k in range(1, 5 if variant == "ejecting" else 2)],
+                                    "passive": {"on": variant == "ejecting", "thr": 1, "win": 1}, "active": {"on": False, "iv": 1},
                                     "cb": {"on": True, "ft": cf["ft"], "st": cf["st"], "mr": cf["mr"], "iv": cf["iv"], "to": cf["to"]}},
                             "steps": steps})
     tp = pc.replay(binp, scripts, sd, "sys")
@@ -118,7 +120,7 @@ def system_level(chk, sd):
     mp = os.path.join(sd, "sys.mapped.ndjson")
     vlib.write_ndjson(mp, out)
     chk.cov["traces_validated_against_impl"] += len(scripts)
-    chk.cov["replayed_transitions_system_level"] = stats["transitions"] * 2
+    chk.cov["replayed_transitions_system_level"] = stats["transitions"] * 3
     viols, pr = vlib.observe("ObsBreakerTrace", "ObsBreakerTrace.cfg", mp)
     chk.add_tlc("P:ObsBreakerTrace over balancer-level replay", pr)
     for v in viols:
